@@ -103,6 +103,7 @@ impl AddressLookup for SimLookup {
         };
         let plan = self.plans[k.min(self.plans.len() - 1)].clone();
         if plan.decline {
+            crate::fw::fault_fired("lookup_service_declines");
             // a declined lookup starts and finishes at once
             let mut g = self.log.lock().unwrap();
             g.started.push((endpoint_id, at()));
@@ -137,15 +138,20 @@ impl AddressLookup for SimLookup {
                         Ok(Item::new(EndpointInfo::from_parts(endpoint_id, EndpointData::new(addrs)), "sim", None))
                     }
                     Emit::Empty => {
+                        crate::fw::fault_fired("lookup_item_without_addresses");
                         log.lock().unwrap().items.push((endpoint_id, at(), false));
                         Ok(Item::new(EndpointInfo::new(endpoint_id), "sim", None))
                     }
                     Emit::WrongEndpoint => {
+                        crate::fw::fault_fired("lookup_item_for_wrong_endpoint");
                         log.lock().unwrap().items.push((endpoint_id, at(), false));
                         let other = SecretKey::from_bytes(&[0x7f; 32]).public();
                         Ok(Item::new(EndpointInfo::from_parts(other, EndpointData::new(vec![next_addr()])), "sim", None))
                     }
-                    Emit::Error => Err(Error::from_err("sim", std::io::Error::other("sim lookup error"))),
+                    Emit::Error => {
+                        crate::fw::fault_fired("lookup_service_error");
+                        Err(Error::from_err("sim", std::io::Error::other("sim lookup error")))
+                    }
                 };
                 Some((out, k + 1))
             }
